@@ -363,6 +363,36 @@ func runX(r *hx.Run, c hx.Case) {
 	}
 	mc := hx.Case{ID: c.ID, Kind: "auth14", Args: append(append([]string{"0", replyArg(replies)}, margs...), scArg)}
 	r.Add(mc, fmt.Sprintf("%s S:%s", hx.Hex([]byte(class)), hexLines(lines)), true)
+	// the Gallina reference server (Sasl.scram_server_first / _final) against the Go reference server of this exchange
+	if isScram(sp.mech) && len(lines) >= 3 && len(replies) >= 3 && uok && pok {
+		cf, ok1 := saslx.UnB64(lines[1])
+		cfin, ok2 := saslx.UnB64(lines[2])
+		srvSecret := sp.secret
+		if !sp.right {
+			srvSecret += "x"
+		}
+		nsp, ok3 := saslx.Opaque(srvSecret)
+		acct, ok4 := saslx.Opaque(sp.user)
+		if ok1 && ok2 && ok3 && ok4 {
+			cbn, cbd := "~", "~"
+			if sst != nil {
+				t, d, _ := saslx.ChannelBinding(*sst)
+				cbn, cbd = hx.Hex([]byte(t)), hx.Hex(d)
+			}
+			o := "!"
+			if replies[1].code == 334 {
+				sf, _ := saslx.UnB64(replies[1].text)
+				o = hx.Hex(sf) + " !"
+				if replies[2].code == 334 {
+					fin, _ := saslx.UnB64(replies[2].text)
+					o = hx.Hex(sf) + " " + hx.Hex(fin)
+				}
+			}
+			r.Dist["refserver"]++
+			r.Add(hx.Case{ID: c.ID + "s", Kind: "srv", Args: []string{sp.mech, cbn, cbd, hx.Hex([]byte("c14srv")), hx.Hex(acct), hx.Hex(nsp),
+				hx.Hex(sp.salt), strconv.Itoa(sp.iter), hx.Hex(cf), hx.Hex(cfin), scArg}}, o, true)
+		}
+	}
 }
 
 var exSteps = map[string]int{"plain": 1, "login": 3, "cram": 2, "xoauth2": 1, "sha1": 4, "sha256": 4, "sha1plus": 4, "sha256plus": 4}
@@ -451,6 +481,55 @@ func runXS(r *hx.Run, c hx.Case) {
 	r.Add(mc, strings.Join(obsParts, " | "), true)
 }
 
+// a -PLUS Auth value is bound to the tls.ConnectionState given to its constructor (mail.Client.auth builds a new value
+// with the current state on every dial).  Used on ANOTHER TLS connection it presents the old connection's binding, and a
+// conforming server (binding from its own end of the new connection) must reject: the binding is that of the actual
+// connection or the exchange fails.  case: stale <mech> <tlsver1> <tlsver2>; oracle only.
+func runStale(r *hx.Run, c hx.Case) {
+	sp := &spec{mech: c.Args[0], right: true, user: "user", secret: "pencil", salt: []byte("stale-salt"), iter: 2}
+	v1, _ := strconv.Atoi(c.Args[1])
+	v2, _ := strconv.Atoi(c.Args[2])
+	c1, s1, err1 := saslx.NewTLSPair(uint16(v1))
+	c2, s2, err2 := saslx.NewTLSPair(uint16(v2))
+	if err1 != nil || err2 != nil {
+		r.Fail(c.ID, "harness", "tls pair")
+		return
+	}
+	defer c1.Close()
+	defer s1.Close()
+	defer c2.Close()
+	defer s2.Close()
+	cst, sst1, sst2 := c1.ConnectionState(), s1.ConnectionState(), s2.ConnectionState()
+	a := mkAuth(sp, &cst)
+	r.AddOracleOnly(c, true)
+	if class, _, _, acc, err := runOnce(sp, a, &sst1); err != nil || class != "OK" || !acc {
+		r.Fail(c.ID, "rejected-with-right-credentials", fmt.Sprintf("%s on its own connection: class %s accepted=%v", sp.mech, class, acc))
+	}
+	class, lines, replies, acc, err := runOnce(sp, a, &sst2)
+	if err == nil && (class == "OK" || acc) {
+		r.Fail(c.ID, "stale-channel-binding-accepted", fmt.Sprintf("%s: binding of another TLS connection accepted (class %s, reference accepted=%v)", sp.mech, class, acc))
+	}
+	// the Gallina reference server must reject the same client messages (its channel-binding check)
+	if err == nil && len(lines) >= 3 && len(replies) >= 3 {
+		cf, ok1 := saslx.UnB64(lines[1])
+		cfin, ok2 := saslx.UnB64(lines[2])
+		t, d, _ := saslx.ChannelBinding(sst2)
+		if ok1 && ok2 {
+			o := "!"
+			if replies[1].code == 334 {
+				sf, _ := saslx.UnB64(replies[1].text)
+				o = hx.Hex(sf) + " !"
+				if replies[2].code == 334 {
+					fin, _ := saslx.UnB64(replies[2].text)
+					o = hx.Hex(sf) + " " + hx.Hex(fin)
+				}
+			}
+			r.Add(hx.Case{ID: c.ID + "s", Kind: "srvstale", Args: []string{sp.mech, hx.Hex([]byte(t)), hx.Hex(d), hx.Hex([]byte("c14srv")), hx.Hex([]byte(sp.user)),
+				hx.Hex([]byte(sp.secret)), hx.Hex(sp.salt), strconv.Itoa(sp.iter), hx.Hex(cf), hx.Hex(cfin), hx.Hex([]byte(strings.Join(c.Args, " ")))}}, o, true)
+		}
+	}
+}
+
 func runCase(r *hx.Run, c hx.Case) {
 	defer func() {
 		if p := recover(); p != nil {
@@ -462,8 +541,14 @@ func runCase(r *hx.Run, c hx.Case) {
 		runX(r, c)
 	case "xs":
 		runXS(r, c)
+	case "stale":
+		runStale(r, c)
+	case "srvstale":
+		runStale(r, hx.Case{ID: strings.TrimSuffix(c.ID, "s"), Kind: "stale", Args: strings.Split(string(hx.UnHex(c.Args[len(c.Args)-1])), " ")})
 	case "auth14s":
 		runXS(r, hx.Case{ID: c.ID, Kind: "xs", Args: strings.Split(string(hx.UnHex(c.Args[len(c.Args)-1])), " ")})
+	case "srv":
+		runX(r, hx.Case{ID: strings.TrimSuffix(c.ID, "s"), Kind: "x", Args: strings.Split(string(hx.UnHex(c.Args[len(c.Args)-1])), " ")})
 	case "auth14":
 		runX(r, hx.Case{ID: c.ID, Kind: "x", Args: strings.Split(string(hx.UnHex(c.Args[len(c.Args)-1])), " ")})
 	case "hash":
@@ -620,6 +705,11 @@ func Run(r *hx.Run, replay []hx.Case) {
 						hx.Hex(randBytes(r, 1+r.Rng.Intn(32))), strconv.Itoa(1 + r.Rng.Intn(4)), strconv.Itoa(ver), d.mode, strconv.Itoa(d.at), strconv.Itoa(n)}})
 				}
 			}
+		}
+	}
+	for _, m := range []string{"sha1plus", "sha256plus"} {
+		for _, vv := range [][2]int{{tls.VersionTLS12, tls.VersionTLS12}, {tls.VersionTLS13, tls.VersionTLS13}, {tls.VersionTLS12, tls.VersionTLS13}} {
+			runCase(r, hx.Case{ID: r.NewID(), Kind: "stale", Args: []string{m, strconv.Itoa(vv[0]), strconv.Itoa(vv[1])}})
 		}
 	}
 	// realistic and maximal iteration counts: reference server only (the extracted hashes are too slow for them)
